@@ -32,6 +32,11 @@ PID = 'C16'
 NS = types.SimpleNamespace
 
 
+# sparsity patterns of a 2x2 matrix as (column pointers, row indices); pattern 2 has the column pointers and the number of
+# entries of pattern 0 but other row indices
+PATTERNS = {0: ([0, 1, 2], [0, 1]), 1: ([0, 2, 3], [0, 1, 1]), 2: ([0, 1, 2], [1, 0])}
+
+
 class Mat:
     """a matrix as the wrapper sees it: size, pattern id, value version"""
 
@@ -44,7 +49,8 @@ class Mat:
     @property
     def CCS(self):
         """column pointers / row indices: one distinct structure per pattern id"""
-        return np.array([0, 1 + self.pattern, 2 + self.pattern]), np.array([0, self.pattern, 1][:2 + self.pattern]), None
+        colptr, rowind = PATTERNS[self.pattern]
+        return np.array(colptr), np.array(rowind), None
 
 
 def h_suitesparse(seq):
@@ -126,6 +132,37 @@ def h_spsolve(seq):
             if requested:
                 out.append((f'call {k}: after a refresh request the factor is of the current matrix', bool(np.all(x == float(v)))))
             out.append((f'call {k}: refresh flags are consumed', S.factorize is False and S.new_A is False))
+        return out
+    return h
+
+
+def h_spsolve_mixed(seq):
+    """seq: tuple of (version, op) with op in {'solve', 'solve+refresh', 'linsolve'}: the one-shot entry point is stateless"""
+    def h(I):
+        import andes.linsolvers.scipy as SC
+
+        def splu(A):
+            return NS(solve=lambda b, ver=A.version: np.full(len(b), float(ver)))
+        solve = pysym.rebind(SC.SpSolve.solve, splu=splu, spmatrix_to_csc=lambda A: A)
+        lin = pysym.rebind(SC.SpSolve.linsolve, spsolve=lambda A, b: np.full(len(b), float(A.version)), spmatrix_to_csc=lambda A: A,
+                           splu=splu)
+        S = SC.SpSolve()
+        S.solve = types.MethodType(solve, S)
+        out = []
+        pending = True                      # a new solver starts with the refresh flag set
+        for k, (v, op) in enumerate(seq):
+            if op == 'linsolve':
+                x = lin(S, Mat(0, v), np.zeros(2))
+                out.append((f'call {k}: the one-shot entry point returns the solution of the matrix it was given', bool(np.all(x == float(v)))))
+                continue
+            if op == 'solve+refresh':
+                S.new_A = True
+                pending = True
+            x = solve(S, Mat(0, v), np.zeros(2))
+            if pending:
+                out.append((f'call {k}: a refresh requested earlier is honoured by this solve, whatever one-shot calls came in between',
+                            bool(np.all(x == float(v)))))
+            pending = False
         return out
     return h
 
@@ -233,6 +270,8 @@ def job(spec):
     if kind == 'ss':
         return H.run('SuiteSparseSolver.solve ' + ' > '.join(f'(pattern {it[0]}, version {it[1]}' + (', same object' if len(it) > 2 and it[2] else '') + ')' for it in arg), h_suitesparse(arg),
                      region=lambda v, c: c.split(': ')[-1])
+    if kind == 'spmix':
+        return H.run('SpSolve solve/linsolve ' + ' > '.join(f'{op}(v{v})' for v, op in arg), h_spsolve_mixed(arg), region=lambda v, c: c.split(': ')[-1])
     if kind == 'sp':
         return H.run('SpSolve.solve ' + ' > '.join(f'(version {v}, {r})' for v, r in arg), h_spsolve(arg), region=lambda v, c: c.split(': ')[-1])
     if kind == 'step':
@@ -273,10 +312,13 @@ def main():
             if not thorough and n == 3 and (hash(seq) + core.seed()) % 3:
                 continue
             jobs.append(('ss', seq))
-    for seq in (((0, 0), (0, 1, True)), ((0, 0), (0, 1, True), (0, 2, True)), ((0, 0), (1, 2), (1, 1, True)), ((0, 1), (0, 1, True))):
+    for seq in (((0, 0), (0, 1, True)), ((0, 0), (0, 1, True), (0, 2, True)), ((0, 0), (1, 2), (1, 1, True)), ((0, 1), (0, 1, True)),
+                ((0, 0), (2, 1)), ((2, 0), (0, 1), (2, 2)), ((0, 0), (2, 0)), ((1, 0), (2, 1), (0, 2))):
         jobs.append(('ss', seq))
     for seq in itertools.product([(0, 'none'), (1, 'none'), (1, 'factorize'), (2, 'new_A')], repeat=3 if thorough else 2):
         jobs.append(('sp', seq))
+    ops = [(0, 'solve'), (1, 'linsolve'), (2, 'solve+refresh'), (3, 'solve')]
+    jobs += [('spmix', seq) for seq in itertools.permutations(ops, 3)] + [('spmix', ((0, 'solve'), (1, 'solve+refresh'))), ('spmix', ((0, 'solve+refresh'), (1, 'linsolve'), (2, 'solve')))]
     jobs += [('step', (h_, lc)) for h_ in (0, 1) for lc in (True, False)] + [('nr', m) for m in ('NR', 'dishonest')] + [('ipadd', 0)]
     ck.merge(core.pmap(job, jobs))
     ck.sample({'sequence': '(pattern 0, version 0) > (pattern 1, version 2) > (pattern 0, version 1)', 'symbolic': 'matrix_k_is_singular'})
